@@ -473,6 +473,22 @@ func (d *DB) Exec(args [][]byte) resp.Value {
 			}
 		}
 		return resp.A(out...)
+	case "hscan":
+		// HSCAN key cursor [MATCH p] [COUNT n]: the whole hash in one page (a legal SCAN-family answer), options ignored
+		if n < 3 {
+			return arity(cmd)
+		}
+		e, tok := get(kHash)
+		if !tok {
+			return wrongType
+		}
+		page := []resp.Value{}
+		if e != nil {
+			for _, f := range e.fields {
+				page = append(page, resp.BS(f), resp.B(cp(e.hash[f])))
+			}
+		}
+		return resp.A(resp.BS("0"), resp.A(page...))
 	case "hdel":
 		if n < 3 {
 			return arity(cmd)
